@@ -46,10 +46,20 @@ fn check<A: Cm>(case: &Case) -> PResult {
     }
     let mut offset_query = false;
     let builds = case.builds.max(1);
-    for round in 0..builds {
+    for round in 0..=builds {
         // a fresh HashMap each round: std's RandomState gives a new iteration order every time
         let mut map: HashMap<Seq<A>, AminoC> = HashMap::new();
-        if round % 2 == 0 {
+        let mut rows: Option<Vec<(Seq<A>, AminoC)>> = None;
+        if round == builds {
+            // the documented calling form: an array of rows, in generated order, repeated keys included
+            // (`HashMap::from([..])`: the last row for a key wins, like the model)
+            let mut v = vec![];
+            for (k, a, r) in &case.entries {
+                let key = build(&sy, &SeqSpec { codes: k.clone(), repr: r.clone() })?.into_seq();
+                v.push((key, sa.sym(aminos[*a as usize % 21])));
+            }
+            rows = Some(v);
+        } else if round % 2 == 0 {
             // keys in their generated provenance (copied out of a longer sequence, truncated, edited, ...)
             for (k, a, r) in &case.entries {
                 let key = build(&sy, &SeqSpec { codes: k.clone(), repr: r.clone() })?.into_seq();
@@ -65,7 +75,10 @@ fn check<A: Cm>(case: &Case) -> PResult {
                 map.insert(key, sa.sym(*a));
             }
         }
-        let table: CodonTable<A, AminoC> = no_panic(&format!("from_map_panic/{n}"), "CodonTable::from_map", || CodonTable::from_map(map))?;
+        let table: CodonTable<A, AminoC> = match rows {
+            None => no_panic(&format!("from_map_panic/{n}"), "CodonTable::from_map", || CodonTable::from_map(map))?,
+            Some(v) => no_panic(&format!("from_map_panic/{n}"), "CodonTable::from_map([rows])", || from_rows::<A>(v))?,
+        };
         // forward lookups: every key and the generated queries
         let mut qs: Vec<Query> = case.queries.clone();
         for (i, k) in fwd.keys().enumerate() {
@@ -116,8 +129,32 @@ fn check<A: Cm>(case: &Case) -> PResult {
         .class_if(three, "three_preimages")
         .class_if(single, "unique_amino")
         .class_if(fwd.is_empty(), "empty_table")
+        .class_if(fwd.len() < case.entries.len(), "repeated_key_rows")
         .class_if(offset_query, "offset_query")
         .class_if(case.entries.iter().any(|e| !e.2.is_plain()), "key_with_history"))
+}
+
+/// `CodonTable::from_map([(codon, amino); N])` for the N at hand (N <= 24 is what the generator makes;
+/// longer inputs go through a HashMap built row by row, which has the same last-row-wins meaning)
+fn from_rows<A: Cm>(v: Vec<(Seq<A>, AminoC)>) -> CodonTable<A, AminoC> {
+    macro_rules! sized {
+        ($($n:literal)*) => {
+            match v.len() {
+                $($n => {
+                    let a: [(Seq<A>, AminoC); $n] = v.try_into().ok().expect("length matched");
+                    CodonTable::from_map(a)
+                })*
+                _ => {
+                    let mut m = HashMap::new();
+                    for (k, a) in v {
+                        m.insert(k, a);
+                    }
+                    CodonTable::from_map(m)
+                }
+            }
+        };
+    }
+    sized!(0 1 2 3 4 5 6 7 8 9 10 11 12 13 14 15 16 17 18 19 20 21 22 23 24)
 }
 
 pub fn dispatch(case: &Case) -> PResult {
